@@ -1,8 +1,9 @@
 import WebPkg.Driver.OpsCbor
 import WebPkg.Driver.OpsMice
+import WebPkg.Driver.OpsSH
 open WebPkg.Driver
 
-def handlers : List (String → List String → Option String) := [handleCbor, handleMice]
+def handlers : List (String → List String → Option String) := [handleCbor, handleMice, handleSH]
 
 def dispatch (op : String) (args : List String) : String :=
   match handlers.findSome? (fun h => h op args) with
